@@ -297,6 +297,8 @@ CARRIERS = {
     "if": "def f():\n    if {E}:\n        c(90)\n    else:\n        c(91)\n    return c(92)\n",
     "elif": "def f():\n    if t(80):\n        c(90)\n    elif {E}:\n        c(91)\n    else:\n        c(93)\n    return c(92)\n",
     "while": "def f():\n    while {E}:\n        c(90)\n        if t(81):\n            break\n    return c(92)\n",
+    "if_pass_then": "def f():\n    if {E}:\n        pass\n    else:\n        c(91)\n    return c(92)\n",
+    "if_pass_else": "def f():\n    if {E}:\n        c(90)\n    else:\n        pass\n    return c(92)\n",
     "assign": "def f():\n    y = {E}\n    return c(92, y)\n",
     "augassign": "def f():\n    y = 1\n    y += {E}\n    return c(92, y)\n",
     "expr": "def f():\n    {E}\n    return c(92)\n",
